@@ -295,51 +295,55 @@ Definition units_init (bases : list (string * Q)) (kw : list (string * kwval))
 
 (* ------------------------------------------------------------------------------------ *)
 (* Dimension bookkeeping: normal form  c * pi^k * prod base_i ^ d_i                        *)
+(* (exponent vector aligned with the list of base units)                                  *)
 (* ------------------------------------------------------------------------------------ *)
-Record mono := { coef : Q; pi_exp : Z; dims : list (string * Z) }.
+Record mono := { coef : Q; pi_exp : Z; dims : list Z }.
 
-Fixpoint dim_add (k : string) (n : Z) (d : list (string * Z)) : list (string * Z) :=
-  match d with
-  | [] => [(k, n)]
-  | (k', m) :: r => if String.eqb k k' then (k', (m + n)%Z) :: r else (k', m) :: dim_add k n r
+Fixpoint vadd (a b : list Z) : list Z :=
+  match a, b with
+  | x :: a', y :: b' => (x + y)%Z :: vadd a' b'
+  | [], _ => b
+  | _, [] => a
   end.
 
-Definition dims_mul (a b : list (string * Z)) : list (string * Z) :=
-  fold_left (fun acc '(k, n) => dim_add k n acc) b a.
-
-Definition dims_pow (a : list (string * Z)) (n : Z) : list (string * Z) :=
-  map (fun '(k, m) => (k, (m * n)%Z)) a.
+Definition vzero (bases : list string) : list Z := map (fun _ => 0%Z) bases.
+Definition vunit (bases : list string) (b : string) : list Z :=
+  map (fun k => if String.eqb b k then 1%Z else 0%Z) bases.
 
 Definition mono_mul (a b : mono) : mono :=
   {| coef := Qred (coef a * coef b); pi_exp := (pi_exp a + pi_exp b)%Z;
-     dims := dims_mul (dims a) (dims b) |}.
+     dims := vadd (dims a) (dims b) |}.
 
 Definition mono_pow (a : mono) (n : Z) : mono :=
   {| coef := Qred (Qpower (coef a) n); pi_exp := (pi_exp a * n)%Z;
-     dims := dims_pow (dims a) n |}.
+     dims := map (fun m => (m * n)%Z) (dims a) |}.
 
-Definition mono_inv (a : mono) : mono := mono_pow a (-1).
+Definition mono_one (bases : list string) : mono :=
+  {| coef := 1; pi_exp := 0; dims := vzero bases |}.
+
+Definition mono_base (bases : list string) (b : string) : mono :=
+  {| coef := 1; pi_exp := 0; dims := vunit bases b |}.
 
 (* normal form of a property body; None if it mentions an unknown base unit or a
    non-positive constant *)
 Fixpoint mono_of (bases : list string) (e : uexpr) : option mono :=
   match e with
-  | UBase b => if mem b bases then Some {| coef := 1; pi_exp := 0; dims := [(b, 1%Z)] |}
-               else None
-  | UConst q => if (0 <? Qnum q)%Z then Some {| coef := Qred q; pi_exp := 0; dims := [] |}
+  | UBase b => if mem b bases then Some (mono_base bases b) else None
+  | UConst q => if (0 <? Qnum q)%Z
+                then Some {| coef := Qred q; pi_exp := 0; dims := vzero bases |}
                 else None
-  | UPi => Some {| coef := 1; pi_exp := 1; dims := [] |}
+  | UPi => Some {| coef := 1; pi_exp := 1; dims := vzero bases |}
   | UMul a b => match mono_of bases a, mono_of bases b with
                 | Some x, Some y => Some (mono_mul x y) | _, _ => None end
   | UDiv a b => match mono_of bases a, mono_of bases b with
-                | Some x, Some y => Some (mono_mul x (mono_inv y)) | _, _ => None end
+                | Some x, Some y => Some (mono_mul x (mono_pow y (-1))) | _, _ => None end
   | UPow a n => match mono_of bases a with Some x => Some (mono_pow x n) | None => None end
   end.
 
 (* normal form of what getattr returns for a name *)
 Definition mono_of_name (bases : list string) (derived : list (string * uexpr))
            (name : string) : option mono :=
-  if mem name bases then Some {| coef := 1; pi_exp := 0; dims := [(name, 1%Z)] |}
+  if mem name bases then Some (mono_base bases name)
   else match assoc name derived with Some e => mono_of bases e | None => None end.
 
 (* normal form of one sub_unit with an integer power *)
@@ -358,7 +362,7 @@ Definition mono_of_sub (bases : list string) derived (sub : string) : option mon
 
 Fixpoint mono_of_subs (bases : list string) derived (subs : list string) : option mono :=
   match subs with
-  | [] => Some {| coef := 1; pi_exp := 0; dims := [] |}
+  | [] => Some (mono_one bases)
   | s :: r => match mono_of_sub bases derived s, mono_of_subs bases derived r with
               | Some a, Some b => Some (mono_mul a b)
               | _, _ => None
@@ -368,19 +372,26 @@ Fixpoint mono_of_subs (bases : list string) derived (subs : list string) : optio
 (* normal form of a whole unit string (dimensionless markers: the unit monomial) *)
 Definition mono_of_units (bases : list string) derived (units : string) : option mono :=
   let u := strip_spaces units in
-  if is_marker u then Some {| coef := 1; pi_exp := 0; dims := [] |}
+  if is_marker u then Some (mono_one bases)
   else mono_of_subs bases derived (split_on "*" u).
 
-(* exponent of one base unit in a dimension list (entries are kept unique by dim_add) *)
-Definition dim_get (d : list (string * Z)) (k : string) : Z :=
-  match assoc k d with Some n => n | None => 0%Z end.
+Fixpoint zlist_eqb (a b : list Z) : bool :=
+  match a, b with
+  | [], [] => true
+  | x :: a', y :: b' => Z.eqb x y && zlist_eqb a' b'
+  | _, _ => false
+  end.
 
-(* two normal forms denote the same monomial *)
-Definition mono_eqb (bases : list string) (a b : mono) : bool :=
-  Qeq_bool (coef a) (coef b) && Z.eqb (pi_exp a) (pi_exp b) &&
-  forallb (fun k => Z.eqb (dim_get (dims a) k) (dim_get (dims b) k)) bases &&
-  forallb (fun '(k, _) => mem k bases) (dims a) &&
-  forallb (fun '(k, _) => mem k bases) (dims b).
+Definition mono_eqb (a b : mono) : bool :=
+  Qeq_bool (coef a) (coef b) && Z.eqb (pi_exp a) (pi_exp b) && zlist_eqb (dims a) (dims b).
+
+Fixpoint nodupb (l : list string) : bool :=
+  match l with [] => true | x :: r => negb (mem x r) && nodupb r end.
+
+(* every SI_units entry has a normal form *)
+Definition si_table_ok (bases : list string) derived (tab : list (string * string)) : bool :=
+  forallb (fun '(_, u) => match mono_of_units bases derived u with Some _ => true
+                                                                  | None => false end) tab.
 
 (* ------------------------------------------------------------------------------------ *)
 (* Q instance (execution) and the comparison used by the generated case files             *)
